@@ -120,11 +120,22 @@ def run_check(prop_name, tier, master, runs=None, wall_cap=None, workers=None, o
         r, v = lst[0]
         k = known_mod.match(kn, prop.ID, v)
         if k is not None:
-            n_known += len(lst)
-            if k['text'] not in printed_known:
-                printed_known.add(k['text'])
-                print(f'KNOWN-FINDING: property={prop.ID} {k["text"]}  [{len(lst)} run(s), e.g. seed {r["seed"]}]')
-            continue
+            # a known finding is identified on the *minimised* case: shrink first (short budget), so that a different
+            # failure that merely happens to share the coarse features of the raw scenario is still reported
+            try:
+                mini_k, _ = minimise(prop, r['scenario'], v['rule'], budget_s=prop.TIERS[tier].get('min_known', 12))
+                res_k = prop.execute(mini_k)
+                v_k = next((x for x in res_k['violations'] if x['rule'] == v['rule']), v)
+            except Exception:
+                v_k = v
+            k = known_mod.match(kn, prop.ID, v_k)
+            if k is not None:
+                n_known += len(lst)
+                if k['text'] not in printed_known:
+                    printed_known.add(k['text'])
+                    print(f'KNOWN-FINDING: property={prop.ID} {k["text"]}  [{len(lst)} run(s), e.g. seed {r["seed"]}]')
+                continue
+            r['scenario'] = mini_k
         scenario = r['scenario']
         mini = scenario
         steps = 0
